@@ -31,7 +31,14 @@ RULE = (
     "entry set (injectivity); from_list(as_list()) and the with_meta variant are the identity on the "
     "serialised projection; Tree.load after odb.add accepts the listing the library wrote (never 'corrupted'), "
     "returns the same listing, re-digests to the same id, and the stored bytes are the "
-    "reference bytes; for every directory prefix get_obj == reference object of the re-rooted entries and "
+    "reference bytes; the SAME listing is also put into private stores in 1-2 drawn other stored forms - entries in a "
+    "drawn order, the same JSON document laid out differently (keys of every entry reversed, compact / spaced "
+    "separators, indentation, trailing newline), both (each under the name a content-addressed writer gives those "
+    "bytes), or WITH metadata exactly as the library stores it (digest(with_meta=True) + add_update_tree put the "
+    "with-meta text under the metadata-free id; read back with hash_name= as index loading does; md5 family) - and "
+    "the tree Tree.load re-parses from every form must be the directly built one: same entries, as_bytes() == "
+    "reference bytes, digest() == reference id and stages the reference bytes, and one more store / load / digest "
+    "cycle gives the same bytes and id; for every directory prefix get_obj == reference object of the re-rooted entries and "
     "filter keeps exactly the keys below it; file / absent prefixes behave as documented. HIST: a history on ONE "
     "Tree instance - drawn trie-backed reads (get_obj, filter, iteritems, as_trie, ls, shortest_prefix) interleaved "
     "with Tree.add overwriting existing keys with new hashes, adds of new keys and re-digests; after every step "
@@ -40,10 +47,13 @@ RULE = (
     "edited (replace/add/remove keys) between publications; after every step a drawn published tree - often an "
     "earlier one - must have listing/id == reference of the entries it was published with and answer the drawn "
     "prefix reads from exactly those entries. LIVE: up to 8 live trees derived from one another (filter, "
-    "update_meta, odb.add + Tree.load through harness-owned HashInfo keys, loading twice through one key, get_obj) "
+    "update_meta, odb.add + Tree.load through harness-owned HashInfo keys - for half of the loads the listing sits in a "
+    "private store in a drawn stored form as above (other entry order / JSON layout under the name of those bytes, or "
+    "with metadata under the tree's id) -, loading twice through one key, get_obj) "
     "with add and digest applied to one of them at a time; after every step EVERY live tree must still report the "
     "id the model assigns it (its last digest; the source's id for filter/update_meta copies; the key for loaded "
-    "trees) with hash_info == oid, list its own entries, equal a fresh rebuild + reference when it is clean, and "
+    "trees) with hash_info == oid, serialise (as_bytes) to the canonical reference listing of its own entries "
+    "whatever form it was parsed from, equal a fresh rebuild + reference when it is clean, and "
     "every HashInfo key handed to load must be unchanged. "
     "FS: a generated tree (in a third of the cases 1-3 files/directories carry awkward names as above; names that "
     "are not valid UTF-8 only when no State is used) materialised twice in two drawn creation orders (second copy on tmpfs or on the "
@@ -105,6 +115,16 @@ ASSUMPTIONS = [
     "the state under the store's hash name (_build_external_tree_info reads it back); no caller configures a "
     "local store that way (non-md5 names are used for remote stores, where the State is inert), so it is "
     "recorded as an observation, not judged",
+    "stored forms: a .dir object is a JSON list of {hash key, relpath[, metadata fields]} objects; any JSON text "
+    "of that document (entry order, key order, separators, indentation, trailing newline - another writer, an "
+    "older version, a hand-repaired cache) lists the same set of (relpath, digest) pairs, and a listing stored WITH "
+    "metadata is what the library's own digest(with_meta=True) + add_update_tree leave under the metadata-free id. "
+    "Only what the statement says is asked of the re-parsed tree (same pairs => same canonical bytes and id on "
+    "as_bytes()/digest(), re-serialising is stable); before digest() a loaded tree reports the key it was loaded "
+    "under (Tree.load does not re-digest) and that is not judged. Foreign forms are ASCII-only JSON like the "
+    "library's own output (no raw UTF-8: Tree.load opens the object in text mode with the locale's encoding); the "
+    "with-meta form is read back with hash_name= (without it HashInfo.from_dict cannot pick the hash out of an entry "
+    "that carries metadata) and only for md5 / md5-dos2unix; for sha256 the drawn form falls back to 'permuted'",
     "touch/chmod never change file contents; mtimes are set by the harness with os.utime(ns=...)",
     "view routes: a size of None / a missing size key in info() means 'unknown' (fsspec convention, e.g. HTTP without "
     "Content-Length; DataIndex._info_from_entry reports None for entries without a size; hash.file_md5 handles "
@@ -233,6 +253,21 @@ def entries_of(case):
     return out
 
 
+# How a listing sits in the store before Tree.load parses it. "canonical" = the bytes the library writes; "permuted"
+# = the same entries in a drawn order; "layout" = the same JSON document laid out differently (keys of every entry in
+# reversed order, compact / spaced separators, indentation, trailing newline); "with-meta" = the listing WITH metadata
+# as the library itself stores it: digest(with_meta=True) + add_update_tree put the with-meta text under the
+# metadata-free id (md5 family only; for other names the form falls back to "permuted").
+STORED_FORMS = ["canonical", "permuted", "permuted", "layout", "layout", "permuted+layout", "with-meta", "with-meta"]
+STORED = st.fixed_dictionaries({
+    "form": st.sampled_from(STORED_FORMS),
+    "perm": st.lists(st.integers(0, 11), min_size=1, max_size=8),
+    "keys": st.sampled_from(["sorted", "reversed", "reversed"]),
+    "sep": st.sampled_from(["default", "compact", "compact", "spaced"]),
+    "indent": st.sampled_from([None, None, 0, 2, "\t"]),
+    "newline": st.booleans(),
+})
+
 METAS = [{}, {"size": 0}, {"size": 5}, {"isexec": True}, {"size": 7, "isexec": True}, {"nfiles": 0},
          {"version_id": "v1"}, {"etag": "e"}, {"checksum": "c"}, {"size": 2**40, "inode": 5, "mtime": 1.5}]
 
@@ -253,6 +288,8 @@ def pure_cases(draw):
                 "i": draw(st.integers(0, 11)), "j": draw(st.integers(0, 11)),
                 "name": draw(PN), "oid": draw(st.sampled_from(XOIDS))},
         "absent": draw(st.lists(PN, min_size=1, max_size=2)),
+        # stored forms of the listing that Tree.load has to parse back into the same object
+        "stored": draw(st.lists(STORED, min_size=1, max_size=2)),
     }
 
 
@@ -314,6 +351,8 @@ LSTEP = st.fixed_dictionaries({
     "oid": st.sampled_from(XOIDS),
     "name": st.one_of(st.none(), PN),
     "p": st.integers(0, 7),
+    # store_load: the form in which the listing sits in the store (see STORED_FORMS)
+    "stored": st.one_of(st.none(), STORED),
 })
 
 
@@ -538,18 +577,143 @@ def listing_of(tree):
     return {"/".join(k): (hi.name, hi.value) for k, _, hi in tree}
 
 
-def load_back(odb, key, viols, sig, what):
-    """Tree.load of a listing the library itself serialised and stored: it must parse (serialise -> re-parse is
-    the identity, so a listing written by as_bytes is never 'corrupted')."""
+def load_back(odb, key, viols, sig, what, hash_name=None, origin="written by as_bytes() and stored with odb.add"):
+    """Tree.load of a listing the library itself serialised and stored (or of another valid spelling of such a
+    listing): it must parse (serialise -> re-parse is the identity, so a listing written by as_bytes is never
+    'corrupted')."""
     from dvc_data.hashfile.tree import Tree
     from dvc_objects.errors import ObjectFormatError
 
     try:
-        return Tree.load(odb, key)
+        return Tree.load(odb, key, hash_name=hash_name) if hash_name else Tree.load(odb, key)
     except ObjectFormatError as exc:
-        viols.append(Viol(sig, f"{what}: the listing {key.value} written by as_bytes() and stored with odb.add cannot "
+        viols.append(Viol(sig, f"{what}: the listing {key.value} {origin} cannot "
                                f"be re-parsed: {_ascii(repr(exc))} (cause: {_ascii(repr(exc.__cause__))[:160]})"))
         return None
+
+
+def stored_form(spec, algo):
+    form = (spec or {}).get("form", "canonical")
+    if form == "with-meta" and hkey(algo) != "md5":
+        return "permuted"  # a listing with metadata can only be re-read for the md5 family (see ASSUMPTIONS)
+    return form
+
+
+def foreign_listing(J, algo, spec, form):
+    """The listing {relpath: oid} as ANOTHER writer may have left it in a store: the same JSON document (a list of
+    {hash key, relpath} objects), entries in a drawn order and/or laid out differently. Written with json.dumps on
+    dicts whose insertion order is the key order wanted (ASCII-only output, like the library's own writer)."""
+    key = hkey(algo)
+    rels = sorted(J)
+    if "permuted" in form:
+        rels = permute(rels, spec["perm"])
+    kw = {}
+    names = sorted([key, "relpath"])
+    if "layout" in form:
+        if spec["keys"] == "reversed":
+            names = names[::-1]
+        if spec["sep"] != "default":
+            kw["separators"] = {"compact": (",", ":"), "spaced": (" , ", " : ")}[spec["sep"]]
+        if spec["indent"] is not None:
+            kw["indent"] = spec["indent"]
+            if spec["sep"] == "default":
+                kw["separators"] = (",", ": ")
+    text = json.dumps([{n: (J[r] if n == key else r) for n in names} for r in rels], **kw)
+    if "layout" in form and spec["newline"]:
+        text += "\n"
+    return text.encode("ascii")
+
+
+def put_stored_form(odb, spec, form, E, algo, metas, viols, pre):
+    """Put the listing of E into the (fresh, private) store `odb` in the drawn form. Returns (HashInfo key to load it
+    with, hash_name argument for Tree.load, the stored bytes) or None after a violation."""
+    from dvc_data.hashfile.db import add_update_tree
+    from dvc_data.hashfile.hash_info import HashInfo
+
+    J = joined(E)
+    want_oid = ref_oid(J, algo)
+    if form == "with-meta":
+        # entirely inside the library: digest(with_meta=True) leaves tree.path at the listing WITH metadata, which
+        # add_update_tree stores under the metadata-free id; read back with hash_name as index.load does
+        tw = mk_tree(E, sorted(E), metas, algo)
+        tw.digest(with_meta=True, name=algo)
+        if tw.oid != want_oid:
+            viols.append(Viol(f"{pre}meta-dependent", f"digest(with_meta=True) gave {tw.oid}, reference {want_oid}"))
+            return None
+        add_update_tree(odb, tw)
+        data = odb.fs.cat_file(odb.oid_to_path(want_oid))
+        parsed = ref.parse_listing(data)
+        if parsed is None or {e["relpath"]: e.get(hkey(algo)) for e in parsed} != J or len(parsed) != len(J):
+            viols.append(Viol(f"{pre}with-meta-listing-pairs", "the listing stored with metadata does not list the "
+                                                               "tree's (relpath, digest) pairs"))
+            return None
+        return HashInfo(algo, want_oid), algo, data
+    data = foreign_listing(J, algo, spec, form)
+    if form == "canonical" and data != ref_bytes(J, algo):
+        raise HarnessError("foreign_listing(canonical) is not the reference listing")
+    # under the name a content-addressed writer gives these bytes
+    oid = ref.ref_hash(data, algo) + ".dir"
+    odb.fs.pipe_file(odb.oid_to_path(oid), data)
+    return HashInfo(algo, oid), None, data
+
+
+def check_stored_form(spec, n, E, algo, metas, viols, classes, half):
+    """A tree re-parsed from ANY stored form of its listing is the same object as the tree built directly from the
+    same (relpath, digest) pairs: same entries, as_bytes() == reference bytes, digest() == reference id, the object
+    it stages holds the reference bytes, and one more store / load / digest cycle changes nothing."""
+    from dvc_data.hashfile.hash_info import HashInfo
+
+    J = joined(E)
+    want_bytes, want_oid = ref_bytes(J, algo), ref_oid(J, algo)
+    form = stored_form(spec, algo)
+    pre = "" if half == "pure" else half + ":"
+    odb = ops.make_odb("mem", f"/odb-stored-{n}", hash_name=algo)
+    put = put_stored_form(odb, spec, form, E, algo, metas, viols, pre)
+    if put is None:
+        return None
+    key, hash_name, data = put
+    key_value = key.value
+    classes.append(f"{half}:stored={form}" + ("(canonical-bytes)" if data == want_bytes and form != "canonical" else ""))
+    origin = ("stored with metadata by digest(with_meta=True) + add_update_tree" if form == "with-meta"
+              else f"stored as a {form} spelling of the same JSON document")
+    loaded = load_back(odb, key, viols, f"{pre}load-rejects-stored-form:{form}", half, hash_name, origin)
+    if loaded is None:
+        return None
+    want_listing = {r: (algo, v) for r, v in J.items()}
+    if listing_of(loaded) != want_listing:
+        viols.append(Viol(f"{pre}load-stored-form-entries:{form}", f"Tree.load of the listing {origin} has other "
+                                                                   f"keys/hashes than the listing says"))
+    elif loaded.as_bytes() != want_bytes:
+        viols.append(Viol(f"{pre}load-stored-form-bytes:{form}",
+                          f"the tree re-parsed from the listing {origin} serialises to {loaded.as_bytes()[:100]!r}, "
+                          f"the tree built directly from the same pairs to {want_bytes[:100]!r}"))
+    elif key.value != key_value:
+        viols.append(Viol(f"{pre}load-key-changed", "the HashInfo key handed to Tree.load was modified"))
+    else:
+        loaded.digest(name=algo)
+        hi = loaded.hash_info
+        if loaded.oid != want_oid or hi.value != want_oid or hi.name != algo:
+            viols.append(Viol(f"{pre}load-stored-form-oid:{form}",
+                              f"the tree re-parsed from the listing {origin} digests to {hi}, the tree built directly "
+                              f"from the same pairs to {algo}:{want_oid}"))
+        elif loaded.fs.cat_file(loaded.path) != want_bytes or loaded.as_bytes() != want_bytes:
+            viols.append(Viol(f"{pre}load-stored-form-staged-bytes:{form}", "the object staged by digest() of the "
+                                                                            "re-parsed tree is not the reference listing"))
+        else:
+            # one more cycle: store what digest() staged, parse it again, digest again
+            odb2 = ops.make_odb("mem", f"/odb-stored-{n}-again", hash_name=algo)
+            odb2.add(loaded.path, loaded.fs, loaded.oid)
+            key2 = HashInfo(algo, want_oid)
+            again = load_back(odb2, key2, viols, f"{pre}load-rejects-own-listing", half + " second cycle")
+            if again is not None:
+                again_bytes = again.as_bytes()
+                again.digest(name=algo)
+                if (odb2.fs.cat_file(odb2.oid_to_path(want_oid)) != want_bytes or again_bytes != want_bytes
+                        or listing_of(again) != want_listing or again.oid != want_oid):
+                    viols.append(Viol(f"{pre}load-stored-form-cycle:{form}",
+                                      f"store / load / digest of the tree re-parsed from the listing {origin} gives "
+                                      f"another listing or id ({again.oid}, reference {want_oid})"))
+    return loaded
 
 
 def name_classes(rels, half):
@@ -659,6 +823,12 @@ def _run_pure(case, Tree):  # noqa: N803
             if loaded.oid != want_oid:
                 viols.append(Viol("load-roundtrip-oid", f"re-digest of the re-parsed listing gives {loaded.oid}, "
                                                         f"reference {want_oid}"))
+
+    # other stored forms of the same listing: the re-parsed tree is the directly built one
+    for n, spec in enumerate(case.get("stored") or []):
+        if viols:
+            break
+        check_stored_form(spec, n, E, algo, case["metas2"], viols, classes, "pure")
 
     # prefixes
     prefixes = sorted({k[:d] for k in E for d in range(0, len(k))})
@@ -915,7 +1085,12 @@ def run_live(case, ctx):
                                       f"id is {algo}:{r['id']}"))
                     return
                 if t.as_bytes() != ref_bytes(joined(r["E"]), algo):
-                    viols.append(Viol(f"live:listing-changed:{r['how']}", f"{where}: tree #{n} lists other entries"))
+                    if {"/".join(k): hi_.value for k, _, hi_ in t} == joined(r["E"]):
+                        viols.append(Viol(f"live:listing-not-canonical:{r['how']}",
+                                          f"{where}: tree #{n} ({r['how']}) holds its own entries but as_bytes() is "
+                                          f"not their canonical listing: {t.as_bytes()[:100]!r}"))
+                    else:
+                        viols.append(Viol(f"live:listing-changed:{r['how']}", f"{where}: tree #{n} lists other entries"))
                     return
                 if r["clean"]:
                     fresh = mk_tree(r["E"], sorted(r["E"]), [{}], algo)
@@ -924,7 +1099,7 @@ def run_live(case, ctx):
                         viols.append(Viol(f"live:id-vs-rebuild:{r['how']}",
                                           f"{where}: tree #{n} id {t.oid} != fresh rebuild {fresh.oid} / reference"))
                         return
-            for n, (k, v) in enumerate(keys):
+            for n, (k, v, _, _) in enumerate(keys):
                 if k.value != v or k.name != algo:
                     viols.append(Viol("live:load-key-changed", f"{where}: the HashInfo key #{n} handed to Tree.load "
                                                                f"now reads {k}, it was {algo}:{v}"))
@@ -957,10 +1132,32 @@ def run_live(case, ctx):
                     # get_obj() always digests with the default name
                     live.append({"t": g, "E": sub, "id": ref_oid(joined(sub), algo), "clean": True, "own": True,
                                  "how": "get_obj", "name": "md5"})
+            elif op == "store_load" and room and ra["own"] and ra["clean"] and st_.get("stored"):
+                # the listing sits in a (private) store in another form: another entry order / JSON layout under
+                # the name of those bytes, or WITH metadata under the tree's id (written by the library itself)
+                spec = st_["stored"]
+                form = stored_form(spec, algo)
+                odb_k = ops.make_odb("mem", f"/odb-stored-{n}", hash_name=algo)
+                metas = [METAS[(st_["i"] + j) % len(METAS)] for j in range(3)]
+                put = put_stored_form(odb_k, spec, form, Ea, algo, metas, viols, "live:")
+                if put is None:
+                    break
+                key, hash_name, data = put
+                keys.append((key, key.value, odb_k, hash_name))
+                lt = load_back(odb_k, key, viols, f"live:load-rejects-stored-form:{form}", f"step {n}", hash_name,
+                               f"stored in the form {form}")
+                if lt is None:
+                    break
+                # it reports the key it was loaded under until it is digested; its listing is the canonical one
+                live.append({"t": lt, "E": dict(Ea), "id": key.value, "clean": key.value == ra["id"], "own": False,
+                             "how": "load"})
+                shared = True
+                classes.append(f"live:stored={form}" + ("(canonical-bytes)" if data == ref_bytes(joined(Ea), algo)
+                                                        and form != "canonical" else ""))
             elif op == "store_load" and room and ra["own"] and ra["clean"]:
                 odb.add(ta.path, ta.fs, ta.oid)
                 key = HashInfo(algo, ra["id"])
-                keys.append((key, ra["id"]))
+                keys.append((key, ra["id"], odb, None))
                 lt = load_back(odb, key, viols, "live:load-rejects-own-listing", f"step {n}")
                 if lt is None:
                     break
@@ -969,13 +1166,14 @@ def run_live(case, ctx):
                 if any(has_surrogate(x) for k_ in Ea for x in k_):
                     classes.append("live:loaded-name-not-utf8")
             elif op == "load_again" and room and keys:
-                key, v = keys[st_["b"] % len(keys)]
-                stored = json.loads(odb.fs.cat_file(odb.oid_to_path(v)))
+                key, v, odb_k, hash_name = keys[st_["b"] % len(keys)]
+                stored = json.loads(odb_k.fs.cat_file(odb_k.oid_to_path(v)))
                 E = {tuple(e["relpath"].split("/")): e[hkey(algo)] for e in stored}
-                lt = load_back(odb, key, viols, "live:load-rejects-own-listing", f"step {n}")
+                lt = load_back(odb_k, key, viols, "live:load-rejects-own-listing", f"step {n}", hash_name)
                 if lt is None:
                     break
-                live.append({"t": lt, "E": E, "id": v, "clean": True, "own": False, "how": "load"})
+                live.append({"t": lt, "E": E, "id": v, "clean": v == ref_oid(joined(E), algo), "own": False,
+                             "how": "load"})
                 shared = True
             elif op == "add":
                 ks = sorted(Ea)
